@@ -34,29 +34,34 @@ class BrentsRootFinder:
         self.next_abscissa: Optional[float] = None
 
     def get_next_abscissa(self) -> float:
+        # An exact-zero ordinate can make a divisor below vanish: no
+        # interpolation step is available then and bisection is used instead.
+        dx: Optional[float] = None
         if abs(self.fc - self.fa) < self.epsilon or abs(self.fc - self.fb) < self.epsilon:
             # Secant method
-            dx = self.fb * (self.b - self.a) / (self.fa - self.fb)
-        else:
+            if self.fa != self.fb:
+                dx = self.fb * (self.b - self.a) / (self.fa - self.fb)
+        elif self.fa != 0 and self.fc != 0:
             # Inverse quadratic interpolation
             s = self.fb / self.fa
             r = self.fb / self.fc
             t = self.fa / self.fc
             q = (t - 1) * (s - 1) * (r - 1)
             p = s * (t * (r - t) * (self.c - self.b) + (r - 1) * (self.b - self.a))
-            dx = p / q
+            if q != 0:
+                dx = p / q
 
         # Use bisection instead of interpolation
         # if the interpolation is not within bounds.
         delta = abs(2 * self.epsilon * self.b)
-        adx = abs(dx)
         delta_bc = abs(self.b - self.c)
         delta_cd = abs(self.c - self.d)
         delta_ab = self.a - self.b
         if (
-            (adx >= abs(3 * delta_ab / 4) or dx * delta_ab < 0)
-            or (self.bisection and adx >= delta_bc / 2)
-            or (not self.bisection and adx >= delta_cd / 2)
+            dx is None
+            or (abs(dx) >= abs(3 * delta_ab / 4) or dx * delta_ab < 0)
+            or (self.bisection and abs(dx) >= delta_bc / 2)
+            or (not self.bisection and abs(dx) >= delta_cd / 2)
             or (self.bisection and delta_bc < delta)
             or (not self.bisection and delta_cd < delta)
         ):
